@@ -34,7 +34,8 @@ SOURCES = ["include/etl/_type_traits/is_constant_evaluated.hpp", "include/etl/_c
            "include/etl/_cmath/trunc.hpp", "include/etl/_cmath/round.hpp", "include/etl/_cmath/rint.hpp",
            "include/etl/_cmath/lrint.hpp", "include/etl/_cmath/copysign.hpp", "include/etl/_cmath/signbit.hpp",
            "include/etl/_cmath/isnan.hpp", "include/etl/_cmath/isinf.hpp", "include/etl/_cmath/isfinite.hpp",
-           "include/etl/_cmath/fma.hpp", "include/etl/_bit/popcount.hpp", "include/etl/_bit/byteswap.hpp",
+           "include/etl/_cmath/fma.hpp", "include/etl/_cmath/fmod.hpp", "include/etl/_cmath/remainder.hpp",
+           "include/etl/_cmath/sqrt.hpp", "include/etl/_bit/popcount.hpp", "include/etl/_bit/byteswap.hpp",
            "include/etl/_bit/bit_cast.hpp", "include/etl/_cstring/strlen.hpp", "include/etl/_cstring/strcmp.hpp",
            "include/etl/_cstring/strncmp.hpp", "include/etl/_cstring/strchr.hpp", "include/etl/_cstring/memchr.hpp",
            "include/etl/_strings/cstr.hpp", "include/etl/_numeric/add_sat.hpp",
@@ -66,12 +67,17 @@ UNPROVED_OBSERVED = [
     "GCC's constant evaluator: that it evaluates tetl's constexpr code as the abstract machine would, and that constant evaluation "
     "succeeds for every argument of the documented domain, is observed on every case of the run (a row that does not "
     "constant-evaluate is reported with function and argument), not proved",
-    "compiler builtins (__builtin_floorf, __builtin_popcount, __builtin_bswap*, __builtin_add_overflow, __builtin_signbit, "
+    "compiler builtins (__builtin_floorf, __builtin_ceilf, __builtin_popcount, __builtin_bswap*, __builtin_add_overflow, __builtin_signbit, "
     "__builtin_isnan/isinf, __builtin_copysign, __builtin_rint, __builtin_lrint, __builtin_fma, __builtin_bit_cast): assumed to "
     "implement the specification they are bound to in Tetl.C13.Spec.builtinTable; compared with it on every case",
     "the clang branch of the `#if defined(__clang__)` dispatch in the cstring headers (__builtin_strlen ...) is inventoried "
     "and bound to the same specification, but this toolchain compiles the other branch",
     "long double overloads (x87 80-bit format) are not modelled",
+    "fmod, remainder, sqrt (two paths since the C16 fixes: libm builtin at run time, gcem in constant evaluation) are inventoried "
+    "and bound to their specification by the dispatch theorems, but have no rows in C13's compile-time tables: both paths are "
+    "evaluated on the same inputs by property C16 (ops b/cb fmod, remainder; a/ca sqrt). The constant-evaluated fmod/remainder "
+    "(gcem x - trunc(x/y)*y) is known to differ from the run-time path: finding F-C16-gcem-fmod-constexpr, listed in "
+    "Tetl.C13.Props.dispatch_divergent_are_known",
 ]
 SEARCH_CAP = 10 ** 9
 
@@ -626,30 +632,29 @@ def group_of(case):
     return case.tag.split("/")[0]
 
 
-CLAIMED = False  # temporarily: dispatch bindings must be reconciled with the C16 fixes on main
+CLAIMED = True
 TECHNIQUE = ("Lean 4 proof that tetl's own code on one path equals the specification of the compiler builtin on the other, over an "
              "inventory of two-path functions regenerated from the headers on every run; three-way correspondence run "
              "(constant evaluator / run time at -O0, -O2, sanitized / Lean) ties both paths to the specification")
 LEVEL_TEXT = ("Every function with a compile-time/run-time switch (is_constant_evaluated, __has_builtin, compiler test) is extracted from "
               "the current headers into a Lean table on every run; Lean re-checks that each entry's builtins and callees are bound to "
               "one specification and that fma is the only live pair known to differ. For popcount, byteswap (16 bit), add_sat, the "
-              "C-string functions, copysign and isnan the model of tetl's own code on one path is proved, for all inputs and every "
+              "C-string functions, copysign, signbit, isnan and the constant-evaluated gcem floor/ceil/trunc/round (modelled operation by "
+              "operation with IEEE roundings) the model of tetl's own code on one path is proved, for all inputs and every "
               "width/format, to return without undefined behaviour exactly the value specified for the builtin on the other path; for "
-              "gcem floor/ceil/trunc and rint_fallback it is proved that no argument reaches an out-of-range integer conversion (the "
+              "rint_fallback it is proved that no argument reaches an out-of-range integer conversion (the "
               "model-level face of `constant evaluation succeeds on the whole domain`). Both paths of every operation are then evaluated "
               "on the same inputs by the constant evaluator (constexpr tables, one row per case; a row that does not constant-evaluate is "
               "reported with function and argument) and at run time from volatile arguments at -O0, -O2 and -O1+ASan/UBSan, and compared "
               "with the Lean models and specification and with glibc/libstdc++.")
 LEVEL_NOTE = ("Partial by design (DESIGN §6): that GCC's constant evaluator and code generator implement the abstract machine, and that "
               "builtins implement their specification, is trusted and observed on the explored inputs only (coverage.unproved_observed). "
-              "The gcem rounding algorithms and the rint/lrint fallbacks are modelled and compared on every run but have no theorem yet "
-              "(coverage.correspondence_only). Approximating cmath functions are inventoried but have no exactly specified result and "
+              "The rint/lrint fallbacks are modelled and compared on every run but have no value theorem yet "
+              "(coverage.correspondence_only). fmod, remainder and sqrt are two-path since the C16 fixes: inventoried and bound here, "
+              "evaluated on both paths by property C16 (fmod/remainder in constant evaluation: known finding F-C16-gcem-fmod-constexpr). Approximating cmath functions are inventoried but have no exactly specified result and "
               "are outside the statement. Trusted: Lean kernel + propext/Classical.choice/Quot.sound, gen/dispatch.py, g++ 12, glibc "
               "as oracle for the specification.")
 CORRESPONDENCE_ONLY = [
-    "gcem::floor, gcem::ceil, gcem::trunc: VALUE equality (Model.gcemFloor/gcemCeil/gcemTrunc = FSpec.roundTo) is compared on every "
-    "run, not proved; proved: the models never reach an out-of-range long long conversion (gcemFloor_total, gcemCeil_total, gcemTrunc_total)",
-    "gcem::round (Model.gcemRound, through find_whole): value and totality by correspondence only",
     "rint_fallback (Model.rintFallback): value by correspondence; totality proved (rintFallback_total)",
     "lrint_fallback / llrint (Model.lrintFallback): correspondence only, on the domain where the result is representable",
     "fma: two-step constant-evaluated path (Model.fmaTwoStep) vs fused specification (Fmt.fma): known finding "
